@@ -1311,6 +1311,19 @@ class ComputeGraph(MultiDiGraph):
         func = ""
         idx = ""
 
+        # resolve delayed terms `past(x, d)` with a plain variable `x` that sit somewhere below this expression on the
+        # expression tree itself: the textual replacement of argument strings further down cannot find a term that
+        # sympy prints with a detached sign (`a - c*past(x, d)`)
+        if not expr_str and getattr(expr, 'args', None) and getattr(expr.func, '__name__', '') != 'past':
+            past_calls = [p for p in expr.atoms(Function) if getattr(p.func, '__name__', '') == 'past'
+                          and len(p.args) == 2 and isinstance(p.args[0], Symbol)]
+            for p in past_calls:
+                try:
+                    delay = self.get_var(p.args[1].name)
+                except AttributeError:
+                    delay = float(p.args[1])
+                expr = expr.xreplace({p: Symbol(self._get_var_hist(var=str(p.args[0]), delay=delay))})
+
         # ensure expression string exists
         if not expr_str:
             expr_str = str(expr)
